@@ -256,9 +256,29 @@ def check_cli(system, shapes_n):
     gzsrc = os.path.join(scratch(), 'c10l1.export.gz')
     with gzip.open(gzsrc, 'wb') as f:
         f.write(codecs.encode_export(mts).replace('\nw', '\nä').encode('iso-8859-1'))
-    for use_pos, topnode, zipped in ((False, False, False), (True, False, False), (False, True, False), (False, False, True)):
+    # mid-stream event: a sentence with crossing branches in the middle of a file that is otherwise continuous.  What the
+    # top-down / in-order systems emit for that one sentence is not specified; the sentences after it are ordinary
+    # sentences and their lines must replay like all others.
+    all_mts = mts
+    mixed_src = None
+    if cont:
+        dsh = ((1, 3), 2)
+        dm = assign_heads(dsh, {p: 0 for p, s_ in model.nodes_of(dsh)})
+        dm.sid = 9000
+        k = len(mts) // 3
+        mixed = mts[:k] + [dm] + mts[k:]
+        mixed_src = os.path.join(scratch(), 'c10mixed.export')
+        with open(mixed_src, 'w', encoding='utf-8') as f:
+            f.write(codecs.encode_export(mixed))
+    for use_pos, topnode, zipped in ((False, False, False), (True, False, False), (False, True, False), (False, False, True)) + \
+            (((False, False, 'mixed'),) if cont else ()):
+        mts = all_mts
         dest = os.path.join(scratch(), 'c10.%s.%d.trans' % (system, use_pos))
-        argv = ['transitions', gzsrc if zipped else src, dest, system, '--transform', 'negra_mark_heads'] + (['add_topnode'] if topnode else [])
+        argv = ['transitions', gzsrc if zipped is True else src, dest, system, '--transform', 'negra_mark_heads'] + (['add_topnode'] if topnode else [])
+        if zipped == 'mixed':
+            argv[1] = mixed_src
+            mts = mixed
+            zipped = False
         if zipped:
             argv += ['--src-enc', 'iso-8859-1']
         if use_pos:
@@ -282,6 +302,8 @@ def check_cli(system, shapes_n):
             continue
         fn, with_heads = REPLAY[system]
         for m, ln in zip(mts, lines):
+            if m.sid == 9000:
+                continue        # the discontinuous sentence itself: unspecified
             if ln.count(' ||| ') != 1:
                 bad('line-format', repr(ln))
                 continue
@@ -298,6 +320,9 @@ def check_cli(system, shapes_n):
                     bad('replay-mismatch', 'tree %s: %s' % (model.mt_str(m.root, m.toks), seq))
             except ReplayError as e:
                 bad('replay-stuck', 'tree %s: %s (%s)' % (model.mt_str(m.root, m.toks), seq, e))
+    mts = all_mts
+    if mixed_src:
+        os.unlink(mixed_src)
     # size probes beyond the bound: files of 999, 1000 and 1001 sentences (one line per tree, in file order)
     for total in (999, 1000, 1001):
         big = [model.MT(i + 1, mts[i % len(mts)].toks, mts[i % len(mts)].root) for i in range(total)]
@@ -376,3 +401,28 @@ def run_chunk(chunk):
                             res.violation(v['kind'], v['where'], v['case'], v['detail'], v['what'])
             res.sample({'tree': model.mt_str(mt.root, mt.toks), 'systems': systems})
     return res
+
+
+# --- non-initial states: the oracle of this property in every state of the live-state pool
+# (vt/livepool.py: BFS over live objects; vt/liveoracles.py: the oracles)
+from .. import liveoracles as _lo
+_plan0, _run_chunk0, _check_case0 = plan, run_chunk, check_case
+
+
+def plan(tier, seed):
+    p = _plan0(tier, seed)
+    p['chunks'] = list(p['chunks']) + _lo.plan_chunks(tier)
+    p['assumptions'] = list(p.get('assumptions', [])) + [_lo.assumption()]
+    return p
+
+
+def run_chunk(chunk):
+    if chunk.get('kind') == 'live':
+        return _lo.run_chunk(ID, chunk, Result())
+    return _run_chunk0(chunk)
+
+
+def check_case(case):
+    if isinstance(case, dict) and isinstance(case.get('live'), dict):
+        return _lo.replay(case)
+    return _check_case0(case)
